@@ -251,6 +251,36 @@ theorem gen_read_window_interp (file : Bytes) (size endpos length : Int) :
     simp only [readWindow, hbe, if_false]
     by_cases hneg : endpos < 0 <;> simp [e, evalB, eval, binop, envRead, hneg]
 
+/-! ### Read: the `Next` field -/
+
+def envNext (e length size next n : Int) : Env := fun nm args =>
+  match nm, args with
+  | "#p1", [] => .i e
+  | "#p2", [] => .i length
+  | "#m2", [] => .i next
+  | ".Size", [_] => .i size
+  | "#proj0", [_] => .i n
+  | _, _ => .bad
+
+/-- `next := start + int64(n)`, then `if next+length > size { next = -1 } else { next += length }`,
+    read with `IR.eval`, is the model's `nextPos` whenever `next + length` does not overflow an
+    int64 (the model wraps; the code's arithmetic is the same two's-complement addition) -/
+theorem gen_read_next_interp (e length size n : Int)
+    (hov : -9223372036854775808 ≤ max 0 (e - length) + n + length ∧ max 0 (e - length) + n + length < 9223372036854775808) :
+    ∃ v init c thenE op elseE,
+      Gen.C17.readNextInit = [v, init] ∧ Gen.C17.readNext = [c, thenE, .str op, elseE] ∧ v = .var "#m2" ∧ op = "+=" ∧
+      eval (envNext e length size 0 n) 0 init = .i (max 0 (e - length) + n) ∧
+      (let next := max 0 (e - length) + n
+       (if evalB (envNext e length size next n) c then eval (envNext e length size next n) 0 thenE
+        else binop "+" (.i next) (eval (envNext e length size next n) 0 elseE)) =
+         .i (nextPos size (max 0 (e - length)) n length)) := by
+  refine ⟨_, _, _, _, _, _, rfl, rfl, rfl, rfl, ?_, ?_⟩
+  · simp [eval, binop, envNext]
+  · have hw : wrap64 (max 0 (e - length) + n + length) = max 0 (e - length) + n + length := by
+      unfold wrap64; omega
+    simp only [nextPos, hw]
+    by_cases hgt : max 0 (e - length) + n + length > size <;> simp [evalB, eval, binop, envNext, hgt]
+
 /-! ### clearOldLog: the parse of a file name and the removal condition -/
 
 def envRet (cal : Cal) (rot : Bool) (logID name : Bytes) (keep nowUnit : Int) : Env := fun n args =>
